@@ -107,7 +107,73 @@ def with_listing_order(order, fn):
         pathlib.Path.glob = orig
 
 
+def module_state():
+    """Fingerprint of the interpreter-global state of ariadne_codegen: module globals, class attributes and
+    function defaults that are mutable containers or AST nodes, and the size of every functools cache.
+    {site: fingerprint}; compared before/after a generation — a generator that keeps nothing between
+    generations leaves it unchanged."""
+    import ast as _ast
+    import importlib
+    import pkgutil
+    import types
+
+    import ariadne_codegen
+
+    for m in pkgutil.walk_packages(ariadne_codegen.__path__, "ariadne_codegen."):
+        if ".dependencies" in m.name or m.name.endswith("__main__"):
+            continue
+        try:
+            importlib.import_module(m.name)
+        except Exception:  # noqa
+            pass
+
+    def fp(v, depth=0):
+        if isinstance(v, _ast.AST):
+            return "ast:" + _ast.dump(v)[:4000]
+        if isinstance(v, (dict, list, set, frozenset, tuple)) and depth < 2:
+            if isinstance(v, dict):
+                items = [f"{k!r}:{fp(x, depth + 1)}" for k, x in v.items()]
+            elif isinstance(v, (set, frozenset)):
+                items = sorted(fp(x, depth + 1) for x in v)
+            else:
+                items = [fp(x, depth + 1) for x in v]
+            return f"{type(v).__name__}[{len(v)}]" + "|".join(items)[:4000]
+        r = repr(v)
+        return r[:300]
+
+    out = {}
+
+    def visit_ns(prefix, ns, owner_module):
+        for k, v in list(ns.items()):
+            if k.startswith("__") and k.endswith("__"):
+                continue
+            site = f"{prefix}.{k}"
+            if hasattr(v, "cache_info") and callable(getattr(v, "cache_info", None)):
+                try:
+                    out[site + " [cache]"] = f"currsize={v.cache_info().currsize}"
+                except Exception:  # noqa
+                    pass
+            f = getattr(v, "__func__", v)
+            if isinstance(f, types.FunctionType) and getattr(f, "__module__", None) == owner_module:
+                for i, d in enumerate((f.__defaults__ or ()) + tuple((f.__kwdefaults__ or {}).values())):
+                    if isinstance(d, (dict, list, set, _ast.AST)):
+                        out[f"{site} [default {i}]"] = fp(d)
+            elif isinstance(v, (dict, list, set, _ast.AST)):
+                out[site] = fp(v)
+            elif isinstance(v, type) and getattr(v, "__module__", None) == owner_module and not prefix.count("::"):
+                visit_ns(f"{prefix}::{k}", vars(v), owner_module)
+
+    for name, mod in sorted(sys.modules.items()):
+        if name == "ariadne_codegen" or name.startswith("ariadne_codegen."):
+            if ".dependencies" in name or mod is None:
+                continue
+            visit_ns(name, vars(mod), name)
+    return out
+
+
 def handle(req):
+    if req.get("cmd") == "state":
+        return {"ok": True, "state": module_state()}
     if req.get("listing_order"):
         order = req.pop("listing_order")
         return with_listing_order(order, lambda: handle(req))
